@@ -209,7 +209,8 @@ def judge(nl, pal, res, keys):
         for br in reversed(nl["branches"]):
             again[br[3]] = (complex(sol.get_power(br[3])), complex(sol.get_current(br[3])), complex(sol.get_voltage(br[3])))
         phi_again = {nd: (complex(sol.get_potential(nd)),) for nd in reversed(nodes)}
-        sol2 = nodal_analysis_bias_point_solver(adapt.network(nl))
+        # the second object is built from the same numbers given as NumPy scalars (np.float64 / np.complex128)
+        sol2 = nodal_analysis_bias_point_solver(adapt.network(nl, numpy_scalars=True))
         last, first = nl["branches"][-1][3], nl["branches"][0][3]
         fresh = (complex(sol2.get_power(last)), complex(sol2.get_current(first)), complex(sol2.get_potential(nodes[-1])))
     except Exception as e:  # a valid network never fails to solve
@@ -242,8 +243,9 @@ def judge(nl, pal, res, keys):
         if not _same(phi_again[nd], (phi[nd],)):
             add_violation(res, "query_order", case, phi[nd], phi_again[nd], "potential of %s depends on the order in which results are asked for" % nd)
             return
-    if not _same(fresh, (P[last], I[first], phi[nodes[-1]])):
-        add_violation(res, "query_order", case, (P[last], I[first], phi[nodes[-1]]), fresh, "a second solution object asked powers-first answers differently")
+    # (NumPy and Python complex arithmetic may round differently in the last place: compared to the tolerance of the case)
+    if not (abs(fresh[0] - P[last]) <= tol_p and abs(fresh[1] - I[first]) <= tol_i and abs(fresh[2] - phi[nodes[-1]]) <= tol_v):
+        add_violation(res, "query_order", case, (P[last], I[first], phi[nodes[-1]]), fresh, "a second solution object (values given as NumPy scalars, asked powers-first) answers differently")
         return
     # kvl_ref_zero
     bump(res["hits"], "kvl_ref_zero")
